@@ -25,10 +25,16 @@ type c06Stats struct {
 	mu            sync.Mutex
 	interleavings map[uint64]struct{}
 	maxHeld       int64
+	hangs         atomic.Int32
 }
 
 // checkCycleCase runs one (graph, requested, parallelism, perturbation) case.
 func checkCycleCase(r *vlib.Run, p *vlib.Perturber, st *c06Stats, id string, g importGraph, roots []int, par int, defaultReporter bool) {
+	if st.hangs.Load() >= 12 {
+		// every hang costs a long wait and leaves goroutines behind; a dozen witnesses settle the verdict
+		r.Class("skipped: a dozen hangs already recorded")
+		return
+	}
 	caseNo := caseCtr.Add(1)
 	prefix := fmt.Sprintf("k%d/", caseNo)
 	src := g.sources(prefix)
@@ -79,6 +85,7 @@ func checkCycleCase(r *vlib.Run, p *vlib.Perturber, st *c06Stats, id string, g i
 	r.Eval(key)
 	r.Class(cls)
 	if !res.returned {
+		st.hangs.Add(1)
 		if res.stuck {
 			w["goroutines"] = res.dump
 			r.Violation("c06.deadlock", cls+" graph: Compile never returns (all compiler goroutines parked, dumps identical)", id, w)
